@@ -1,7 +1,7 @@
 (* C15 — Triggers and filters are pure values; builders have no side effects (statements only).
    Builder.v is the builder DSL as a pure program over an object list; that the real TriggerObject / FilterObject
    behave like these values is what the correspondence compares after EVERY public API call for EVERY object. *)
-From EAS Require Import Base Civil Time Filters Replace Producers ProdStrict ProdEarliest Builder BuilderFacts SunFacts.
+From EAS Require Import Base Civil Time Filters Replace Producers ProdStrict ProdEarliest Builder BuilderFacts SunFacts ProdPure.
 
 (* deriving new triggers / filters (offset, earliest, latest, jitter, only_on / only_at, group, any, all, not_)
    never changes an object that existed before, whatever is called afterwards *)
@@ -40,3 +40,92 @@ Theorem C15_sun_query_independent :
     fst (get_next E (PSun key f) st1 dt) = fst (get_next E (PSun key f) st2 dt).
 Proof. exact sun_query_independent. Qed.
 Print Assumptions C15_sun_query_independent.
+
+(* ---- additions to props/C15.v; add `ProdPure` to the `From EAS Require Import ...` line of the header ---- *)
+
+(* C15 (a), whole expressions.  good_state E p st: sun cache coherent; the cell of an interval with start, if present,
+   is on the grid of the start; the cell of a start-less interval is present (anchored by a first query).
+   wfp E p: intervals positive; where jitter occurs the random source is fixed (draw ignores its index). *)
+
+(* the invariant is kept by every query *)
+Theorem C15_good_state_preserved :
+  forall E p st dt, wfp E p -> lconsistent (ileaves p) -> good_state E p st -> good_state E p (snd (get_next E p st dt)).
+Proof. exact good_state_preserved. Qed.
+Print Assumptions C15_good_state_preserved.
+
+(* the answer is the same from any two good states that agree on the grids of the start-less intervals *)
+Theorem C15_query_state_independent :
+  forall E p st1 st2 dt, wfp E p -> lconsistent (ileaves p) -> same_grids E p st1 st2 ->
+    fst (get_next E p st1 dt) = fst (get_next E p st2 dt).
+Proof. exact query_state_independent. Qed.
+Print Assumptions C15_query_state_independent.
+
+Theorem C15_jitter_free_query_state_independent :
+  forall E p st1 st2 dt, wf_producer p -> jitter_free p -> lconsistent (ileaves p) -> same_grids E p st1 st2 ->
+    fst (get_next E p st1 dt) = fst (get_next E p st2 dt).
+Proof. exact jitter_free_query_state_independent. Qed.
+Print Assumptions C15_jitter_free_query_state_independent.
+
+Theorem C15_fixed_draw_query_state_independent :
+  forall E p st1 st2 dt, wf_producer p -> draw_fixed E -> lconsistent (ileaves p) -> same_grids E p st1 st2 ->
+    fst (get_next E p st1 dt) = fst (get_next E p st2 dt).
+Proof. exact fixed_draw_query_state_independent. Qed.
+Print Assumptions C15_fixed_draw_query_state_independent.
+
+(* repeating a query *)
+Theorem C15_repeat_query_same :
+  forall E p st dt r st', wfp E p -> lconsistent (ileaves p) -> good_state E p st ->
+    get_next E p st dt = (r, st') -> fst (get_next E p st' dt) = r.
+Proof. exact repeat_query_same. Qed.
+Print Assumptions C15_repeat_query_same.
+
+(* any queries in between: other instants, other expressions over the same cells and sun cache *)
+Theorem C15_interleaved_queries_same :
+  forall E G p qs st dt, lconsistent G -> wfp E p -> incl (ileaves p) G ->
+    (forall q x, In (q, x) qs -> wfp E q /\ incl (ileaves q) G) ->
+    good E G (anchor_of st) st ->
+    fst (get_next E p (run_queries E qs st) dt) = fst (get_next E p st dt).
+Proof. exact interleaved_queries_same. Qed.
+Print Assumptions C15_interleaved_queries_same.
+
+Theorem C15_other_instants_same :
+  forall E p dts st dt, wfp E p -> lconsistent (ileaves p) -> good_state E p st ->
+    fst (get_next E p (ask_all E p dts st) dt) = fst (get_next E p st dt).
+Proof. exact other_instants_same. Qed.
+Print Assumptions C15_other_instants_same.
+
+(* a copy (same expression, cells holding the current values) answers like the original, however both are
+   queried afterwards *)
+Theorem C15_copy_same :
+  forall E p st stc dts dts' dt, wfp E p -> lconsistent (ileaves p) -> good_state E p st ->
+    icache stc = icache st -> cache_coherent E stc ->
+    fst (get_next E p (ask_all E p dts st) dt) = fst (get_next E p (ask_all E p dts' stc) dt).
+Proof. exact copy_same. Qed.
+Print Assumptions C15_copy_same.
+
+(* all intervals with start: after ANY history the answer is the answer of the initial state *)
+Theorem C15_query_independent_of_history :
+  forall E G p qs dt, lconsistent G -> all_started G -> wfp E p -> incl (ileaves p) G ->
+    (forall q x, In (q, x) qs -> wfp E q /\ incl (ileaves q) G) ->
+    fst (get_next E p (run_queries E qs pstate0) dt) = fst (get_next E p pstate0 dt).
+Proof. exact query_independent_of_history. Qed.
+Print Assumptions C15_query_independent_of_history.
+
+(* a start-less interval is defined from its first query on: the first query that answers establishes the invariant *)
+Theorem C15_first_query_anchors :
+  forall E p st dt v st', wfp E p -> lconsistent (ileaves p) -> pre_good E (ileaves p) st ->
+    get_next E p st dt = (Ok v, st') -> good_state E p st'.
+Proof. exact first_query_anchors. Qed.
+Print Assumptions C15_first_query_anchors.
+
+Theorem C15_answers_fixed_after_first_query :
+  forall E p dt0 v0 st0 dts dt, wfp E p -> lconsistent (ileaves p) -> get_next E p pstate0 dt0 = (Ok v0, st0) ->
+    fst (get_next E p (ask_all E p dts st0) dt) = fst (get_next E p st0 dt).
+Proof. exact answers_fixed_after_first_query. Qed.
+Print Assumptions C15_answers_fixed_after_first_query.
+
+(* the anchoring hypothesis is needed: before its first query a start-less interval has no grid *)
+Theorem C15_unanchored_refuted :
+  fst (get_next ex_envP ex_p pstate0 (ex_dt0 + 7000 * NS)) <> fst (get_next ex_envP ex_p ex_st0 (ex_dt0 + 7000 * NS)).
+Proof. exact unanchored_refuted. Qed.
+Print Assumptions C15_unanchored_refuted.
